@@ -1,0 +1,33 @@
+//go:build verif
+// +build verif
+
+// verif hooks for property C15 (add-only, compiled only with -tags verif): reload function and accept handler.
+
+package mod_trust_clientip
+
+import (
+	"net/url"
+)
+
+import (
+	"github.com/bfenetworks/bfe/bfe_basic"
+	"github.com/bfenetworks/bfe/bfe_util/ipdict"
+)
+
+// VerifC15New = NewModuleTrustClientIP plus the empty trust table that init() creates before the first load.
+func VerifC15New() *ModuleTrustClientIP {
+	m := NewModuleTrustClientIP()
+	m.trustTable = ipdict.NewIPTable()
+	return m
+}
+
+func (m *ModuleTrustClientIP) VerifC15Reload(path string) error {
+	q := url.Values{}
+	q.Set("path", path)
+	return m.loadConfData(q)
+}
+
+func (m *ModuleTrustClientIP) VerifC15Handle(session *bfe_basic.Session) bool {
+	m.acceptHandler(session)
+	return session.TrustSource()
+}
